@@ -394,6 +394,16 @@ func (m *Model) fieldLoadedBy(method, pkg, typ string) string {
 				if fld, meth, ok := m.atomicCall(c); ok && meth == "Load" {
 					found[fld] = true
 				}
+				// the load may sit in a helper that is handed the field's address (loadString(&e.token))
+				if g := c.Call.StaticCallee(); g != nil && m.isLib(g) {
+					for _, a := range c.Call.Args {
+						if fld, ok := m.implField(a); ok {
+							if pt, isPtr := a.Type().Underlying().(*types.Pointer); isPtr && isNamed(pt.Elem(), pkg, typ) {
+								found[fld] = true
+							}
+						}
+					}
+				}
 			}
 		}
 	}
@@ -646,7 +656,7 @@ func (m *Model) staticReachNoModel(f *ssa.Function) map[*ssa.Function]bool {
 	seen := map[*ssa.Function]bool{}
 	var walk func(g *ssa.Function)
 	walk = func(g *ssa.Function) {
-		if g == nil || seen[g] || g.Blocks == nil || topFunc(g).Pkg != m.P.Leader {
+		if g == nil || seen[g] || g.Blocks == nil || !m.isLib(g) {
 			return
 		}
 		seen[g] = true
